@@ -143,9 +143,83 @@ def histories(ctx):
             ctx.sig("hist", len(hist), len(lang), len(reg))
 
 
+def threads(ctx):
+    """the same decode / encode calls from four threads at once, each thread on configuration objects of its own (switch interval 1 us, so the
+    interpreter hands over between almost any two bytecodes): every answer must be the one a single thread gets. androguard starts no
+    threads itself, but nothing in the statement allows an answer to depend on what another configuration object is doing meanwhile."""
+    import sys
+    import threading
+    from androguard.core.axml import ARSCResTableConfig
+    rng = ctx.rng("c30-threads")
+    codes = ["en", "de", "it", "zh", "fil", "haw", "yue", "kok", "sr", "es", "tzm", "pt"]
+    regs = ["", "US", "DE", "419", "HK", "BR", "150", "IN", "RS", "001"]
+    per = 1500 if ctx.quick else 40000
+    plans = []
+    for t in range(4):
+        plan = []
+        for k in range(24):
+            lang, reg = rng.choice(codes), rng.choice(regs)
+            plan.append((lang, reg, ARSCResTableConfig(io.BytesIO(config_bytes(word(lang, reg))))))
+        plans.append(plan)
+    bad = []
+    inflight = [0]
+    overlaps = [0] * 4
+    calls = [0] * 4
+    start = threading.Barrier(4)
+
+    def work(t):
+        plan = plans[t]
+        start.wait()
+        for i in range(per):
+            lang, reg, c = plan[i % len(plan)]
+            inflight[0] += 1
+            if inflight[0] > 1:
+                overlaps[t] += 1
+            try:
+                if i % 3 == 2:
+                    got = ARSCResTableConfig(None, locale=tag(lang, reg)).locale
+                    want = word(lang, reg)
+                elif i % 3 == 1:
+                    got = c.get_qualifier()
+                    want = None
+                    if tag(lang, reg) not in got and not (lang == "" and reg == ""):
+                        want = "a qualifier containing " + tag(lang, reg)
+                    else:
+                        got = want
+                else:
+                    got = c.get_language_and_region()
+                    want = tag(lang, reg)
+            except Exception as e:
+                got, want = "raises " + exc_str(e), tag(lang, reg)
+            inflight[0] -= 1
+            calls[t] += 1
+            if got != want and len(bad) < 5:
+                bad.append({"thread": t, "call": i, "lang": lang, "region": reg, "got": got if not isinstance(got, int) else "%08x" % got,
+                            "want": want if not isinstance(want, int) else "%08x" % want})
+    old = sys.getswitchinterval()
+    sys.setswitchinterval(1e-6)
+    try:
+        ths = [threading.Thread(target=work, args=(t,)) for t in range(4)]
+        for th in ths:
+            th.start()
+        for th in ths:
+            th.join(600)
+    finally:
+        sys.setswitchinterval(old)
+    ctx.evaluations += sum(calls)
+    ctx.count("threaded_calls", sum(calls))
+    ctx.count("threaded_calls_entered_while_another_was_in_flight", sum(overlaps))
+    if any(th.is_alive() for th in ths):
+        ctx.inconclusive("C30 thread stress did not finish within its watchdog")
+    if bad:
+        ctx.violation("concurrent-calls-disturb-each-other", "with four threads working on configuration objects of their own a call reports another object's locale",
+                      {"witnesses": bad, "threads": 4, "switch_interval": 1e-6})
+
+
 def run(ctx):
     from androguard.core.axml import ARSCResTableConfig
     histories(ctx)
+    threads(ctx)
     ctx.rule = ("configs parsed from bytes written with AOSP packing -> get_language_and_region, then ARSCResTableConfig(locale=<string>) must give the same "
                 "locale word (and ==/hash). two-letter: all 676 languages x (no region + 36^2 two-char [A-Z0-9] regions) (quick: 120 sampled regions per language); "
                 "all 26^3 packed three-letter languages x {none, random 2-char, random 3-digit} regions; all 1000 three-digit regions; default locale. "
@@ -168,3 +242,5 @@ def run(ctx):
     ctx.require_counter("parse_then_get_language_and_region", 1000)
     ctx.require_counter("construct_from_locale_string", 1000)
     ctx.require_counter("history_steps", 300)
+    ctx.require_counter("threaded_calls", 4000)
+    ctx.require_counter("threaded_calls_entered_while_another_was_in_flight", 50)
